@@ -92,8 +92,14 @@ class LayoutFolder(Folder):
         p, s, d = a[0], a[1], a[2]
         if not isinstance(p, Perm):
             raise Refuse("moveaxis of non-layout")
-        order = [i for i in range(p.n) if i != self._ax(p, s)]
-        order.insert(self._ax(p, d), self._ax(p, s))
+        # numpy's own definition, for ints and for sequences of axes
+        src_ = [self._ax(p, x) for x in (s if isinstance(s, (list, tuple)) else [s])]
+        dst_ = [self._ax(p, x) for x in (d if isinstance(d, (list, tuple)) else [d])]
+        if len(src_) != len(dst_) or len(set(src_)) != len(src_) or len(set(dst_)) != len(dst_):
+            raise Raised("ValueError", None)
+        order = [i for i in range(p.n) if i not in src_]
+        for dd, ss in sorted(zip(dst_, src_)):
+            order.insert(dd, ss)
         return Perm(p.n, [p.src[i] for i in order], [p.flip[i] for i in order])
 
 
@@ -409,6 +415,23 @@ def rule_c(ctx, T_i):
         and len(n.args) == 2 and norm(n.args[0]) == "axis" and norm(n.args[1]) == "str"
         for n in ast.walk(slice_f.node))
     ctx.need(has_str_branch, "Image.slice no longer has an isinstance(axis, str) branch")
+    # the physical cut is a float: the auxiliary point it is written into must be a float array of its own (np.zeros / np.empty / np.full
+    # with no or a float dtype, or an explicit float conversion) -- an array that takes its dtype from image data (the origin may be
+    # integer-typed) truncates the cut on the store and the neighbouring plane is selected
+    cutp = slice_f.params[1]
+    for st in ast.walk(slice_f.node):
+        if isinstance(st, ast.Assign) and isinstance(st.targets[0], ast.Subscript) and isinstance(st.targets[0].value, ast.Name) and norm(st.value) == cutp:
+            holder = st.targets[0].value.id
+            defs = [s_.value for s_ in ast.walk(slice_f.node) if isinstance(s_, ast.Assign) and any(isinstance(t, ast.Name) and t.id == holder for t in s_.targets)]
+            for dv in defs:
+                dt = next((norm(k.value) for k in dv.keywords if k.arg == "dtype"), None) if isinstance(dv, ast.Call) else None
+                alloc = isinstance(dv, ast.Call) and norm(dv.func) in ("np.zeros", "np.empty", "np.ones", "np.full") and dt in (None, "float", "np.float64", "np.float32", "'float'")
+                conv = isinstance(dv, ast.Call) and ((isinstance(dv.func, ast.Attribute) and dv.func.attr == "astype" and dv.args and norm(dv.args[0]) in ("float", "np.float64"))
+                                                     or (norm(dv.func) in ("np.array", "np.asarray") and dt in ("float", "np.float64")))
+                from_data = any(isinstance(x, ast.Attribute) and isinstance(x.value, ast.Name) and x.value.id == slice_f.params[0] for x in ast.walk(dv))
+                ctx.ob(R, slice_f.qname, f"the point `{holder}` that receives the physical cut is a float array of its own", alloc or conv,
+                       f"`{holder} = {norm(dv)[:70]}` takes its dtype from image data: with an integer-typed origin the cut coordinate is truncated on the store" if from_data and not conv else "",
+                       st, evidence=from_data and not conv)
     # (2) AxisReduction.__init__: str and int branches agree
     ar = m.func("darsia.signals.reduction.dimensionreduction", "AxisReduction.__init__")
     ctx.consult(ar.module.name)
